@@ -56,41 +56,108 @@ EXOTIC = "éßжλ中"
 CANON = {1: "p", 2: "a", 3: "b", 4: "c", 5: "d", 6: "f", 7: "g", 8: "h", 9: "i", 10: "j", 11: "k", 12: "l"}
 
 
-class Conc:
-    """injective map model character code -> real character (0 is ':'), hence model name -> real name"""
+# Part 2 of notes/SIZE_STRESS.md: characters that are not NFC/NFKC-stable next to their twins
+# (1 -> U+00E9 and <<2,3>> -> e + U+0301 are DIFFERENT packages), case-mapping hazards, non-BMP,
+# format characters.  Unicode WHITESPACE is excluded: parse_tags' own \s treats it as format whitespace.
+STRESS = {
+    "nfc":   {1: "\u00e9", 2: "e", 3: "\u0301", 4: "\u212b", 5: "\u00c5", 6: "\u00df", 7: "\u0130", 8: "\u0131",
+              9: "\u017f", 10: "\U0001F600", 11: "\ufb01", 12: "\uff21"},
+    "marks": {1: "\ufeff", 2: "\u200d", 3: "\u00ad", 4: "\u200f", 5: "\U0010FFFF", 6: "\u1100", 7: "\u1161", 8: "\u03c2",
+              9: "\u03c3", 10: "\U00010400", 11: "\U00010428", 12: "\uf9d0"},
+    "case":  {1: "K", 2: "k", 3: "\u212a", 4: "S", 5: "s", 6: "I", 7: "i", 8: "\u0131", 9: "\u0130", 10: "\u00df", 11: "\u1e9e", 12: "\u017f"},
+}
+STRESS_POOL = "".join(sorted({c for m in STRESS.values() for c in m.values()})) + "\u200b\u0300\u1112\u11a8\U0001F1E9"
+# code -> repetition: multi-character package names (codes 2-5, 11, 12) and the tag part after '::'
+# (codes 8, 9) may be stretched; single-character names, facets and ':' never are (a stretched
+# name has the same SET of characters, so the known insert deviation is concretized exactly)
+STRETCH_PKG, STRETCH_TAG = (2, 3, 4, 5, 11, 12), (8, 9)
+PKG_REPS = (1, 4, 8, 16, 21, 32, 43, 64, 85, 128, 341, 512, 1365, 2048)        # x2 / x3 code names: 8..4096
+TAG_REPS = (1, 7, 15, 31, 63, 127, 255, 1023, 4091)
 
-    def __init__(self, rng=None, canonical=False, cmap=None):
+
+class Conc:
+    """injective map model character code -> real character (0 is ':'), hence model name -> real name;
+    rep stretches a code to a run of the same character (size stress)"""
+
+    def __init__(self, rng=None, canonical=False, cmap=None, rep=None, flavour=None):
         if cmap is not None:
             self.cmap = {int(k): v for k, v in cmap.items()}
         elif canonical:
             self.cmap = dict(CANON)
+        elif flavour in STRESS:
+            self.cmap = dict(STRESS[flavour])
         else:
             pool = ALPHA + (EXOTIC if rng.random() < 0.3 else "")
             self.cmap = dict(zip(sorted(CANON), rng.sample(pool, len(CANON))))
         self.cmap[0] = ":"
+        self.rep = {int(k): v for k, v in (rep or {}).items()}
+        if flavour == "size":
+            rp, rt = rng.choice(PKG_REPS), rng.choice(TAG_REPS)
+            self.rep = dict([(c, rp) for c in STRETCH_PKG] + [(c, rt) for c in STRETCH_TAG])
         self._cache = {}
 
     def name(self, seq):
         t = tuple(seq)
         r = self._cache.get(t)
         if r is None:
-            r = self._cache[t] = "".join(self.cmap[c] for c in t)
+            rep = self.rep if len(t) > 1 else {}
+            r = self._cache[t] = "".join(self.cmap[c] * rep.get(c, 1) for c in t)
         return r
 
     def names(self, seqs):
         return {self.name(s) for s in seqs}
 
     def to_json(self):
-        return {str(k): v for k, v in self.cmap.items()}
+        return {"cmap": {str(k): v for k, v in self.cmap.items()}, "rep": {str(k): v for k, v in self.rep.items()}}
+
+    @classmethod
+    def from_json(cls, j):
+        if "cmap" not in j:
+            return cls(cmap=j)
+        return cls(cmap=j["cmap"], rep=j.get("rep"))
 
 
 # ------------------------------------------------------------------ driving the real object
+
+# every public method of DB that has a deprecated camelCase alias (the alias is the same action)
+ALIAS = {"facet_collection": "facetCollection", "reverse_copy": "reverseCopy", "choose_packages": "choosePackages",
+         "choose_packages_copy": "choosePackagesCopy", "filter_packages": "filterPackages",
+         "filter_packages_copy": "filterPackagesCopy", "filter_packages_tags": "filterPackagesTags",
+         "filter_packages_tags_copy": "filterPackagesTagsCopy", "filter_tags": "filterTags",
+         "filter_tags_copy": "filterTagsCopy", "has_package": "hasPackage", "has_tag": "hasTag",
+         "tags_of_package": "tagsOfPackage", "packages_of_tag": "packagesOfTag", "iter_packages": "iterPackages",
+         "iter_tags": "iterTags", "iter_packages_tags": "iterPackagesTags", "iter_tags_packages": "iterTagsPackages",
+         "package_count": "packageCount", "tag_count": "tagCount"}
+
+
+def meth(obj, name, alias):
+    """the bound method `name` of obj, through its deprecated alias when asked for (and present)"""
+    if alias and name in ALIAS:
+        m = getattr(obj, ALIAS[name], None)
+        if m is not None:
+            return m
+    return getattr(obj, name)
+
+
+def quiet_deprecations():
+    import warnings
+    warnings.filterwarnings("ignore", category=DeprecationWarning)
+
 
 def do_call(cur, st):
     """one public call on the current object; returns (new current object, exception name or '')"""
     from debian import debtags
     op = st["op"]
+    al = st.get("alias", False)
     try:
+        if op == "qread":                               # a successful qread() INTO the current object
+            other = debtags.DB()
+            other.read(iter(st["text"]))
+            buf = io.BytesIO()
+            other.qwrite(buf)
+            buf.seek(0)
+            cur.qread(buf)
+            return cur, ""
         if op == "read":
             drop = set(st["drop"])
             cur.read(iter(st["text"]), (lambda t: t not in drop) if st["usefilter"] else None)
@@ -101,7 +168,7 @@ def do_call(cur, st):
         if op == "reverse":
             return cur.reverse(), ""
         if op == "reverse_copy":
-            return cur.reverse_copy(), ""
+            return meth(cur, "reverse_copy", al)(), ""
         if op == "copy":
             return cur.copy(), ""
         if op == "pickle":
@@ -112,7 +179,7 @@ def do_call(cur, st):
             new.qread(buf)
             return new, ""
         if op == "facet":
-            return cur.facet_collection(), ""
+            return meth(cur, "facet_collection", al)(), ""
         if op == "read_fail":
             text = st["text"]
             if st["mode"] == "source":
@@ -165,21 +232,21 @@ def do_call(cur, st):
             return cur, ""
         S = set(st["s"])
         if op == "choose":
-            return cur.choose_packages(list(st["s"])), ""
+            return meth(cur, "choose_packages", al)(list(st["s"])), ""
         if op == "choose_copy":
-            return cur.choose_packages_copy(list(st["s"])), ""
+            return meth(cur, "choose_packages_copy", al)(list(st["s"])), ""
         if op == "filter_p":
-            return cur.filter_packages(lambda p: p in S), ""
+            return meth(cur, "filter_packages", al)(lambda p: p in S), ""
         if op == "filter_p_copy":
-            return cur.filter_packages_copy(lambda p: p in S), ""
+            return meth(cur, "filter_packages_copy", al)(lambda p: p in S), ""
         if op == "filter_pt":
-            return cur.filter_packages_tags(lambda pt: pt[0] in S), ""
+            return meth(cur, "filter_packages_tags", al)(lambda pt: pt[0] in S), ""
         if op == "filter_pt_copy":
-            return cur.filter_packages_tags_copy(lambda pt: pt[0] in S), ""
+            return meth(cur, "filter_packages_tags_copy", al)(lambda pt: pt[0] in S), ""
         if op == "filter_t":
-            return cur.filter_tags(lambda t: t in S), ""
+            return meth(cur, "filter_tags", al)(lambda t: t in S), ""
         if op == "filter_t_copy":
-            return cur.filter_tags_copy(lambda t: t in S), ""
+            return meth(cur, "filter_tags_copy", al)(lambda t: t in S), ""
     except Exception as e:            # an exception of the code under test is an observation
         return cur, type(e).__name__
     raise core.MachineryError("unknown op %r" % (op,))
@@ -203,19 +270,21 @@ def pairs(d):
     return {(k, m) for k, v in d.items() for m in v}
 
 
-def ask(cur, names):
-    """all query methods; returns (answers dict, exception name or '')"""
+def ask(cur, names, alias=False):
+    """all query methods (through their deprecated aliases when alias); returns (answers dict,
+    exception name or '')"""
     try:
-        a = dict(pc=cur.package_count(), tc=cur.tag_count(),
+        m = lambda n: meth(cur, n, alias)       # noqa: E731
+        a = dict(pc=m("package_count")(), tc=m("tag_count")(),
                  qn=list(names),
-                 qtags=[frozenset(cur.tags_of_package(n)) for n in names],
-                 qpkgs=[frozenset(cur.packages_of_tag(n)) for n in names],
+                 qtags=[frozenset(m("tags_of_package")(n)) for n in names],
+                 qpkgs=[frozenset(m("packages_of_tag")(n)) for n in names],
                  qcard=[cur.card(n) for n in names],
-                 qhasp=[cur.has_package(n) for n in names],
-                 qhast=[cur.has_tag(n) for n in names],
-                 itp=list(cur.iter_packages()), itt=list(cur.iter_tags()),
-                 itpt=[(k, frozenset(v)) for k, v in cur.iter_packages_tags()],
-                 ittp=[(k, frozenset(v)) for k, v in cur.iter_tags_packages()])
+                 qhasp=[m("has_package")(n) for n in names],
+                 qhast=[m("has_tag")(n) for n in names],
+                 itp=list(m("iter_packages")()), itt=list(m("iter_tags")()),
+                 itpt=[(k, frozenset(v)) for k, v in m("iter_packages_tags")()],
+                 ittp=[(k, frozenset(v)) for k, v in m("iter_tags_packages")()])
         for c in a["qcard"] + [a["pc"], a["tc"]]:
             if not isinstance(c, int) or isinstance(c, bool):
                 return None, "TypeError(count %r)" % (c,)
@@ -245,16 +314,21 @@ COPY_OPS = ("copy", "reverse_copy", "pickle")
 FAIL_OPS = ("read_fail", "qread_fail", "probe")
 
 
-def event_of(st, exc, db, rdb, answers=None, source=None):
+def event_of(st, exc, db, rdb, answers=None, source=None, current=None):
     """trace event for TraceDebtags from a call descriptor and what was observed;
     source = (db, rdb) projection of the retained source of the last copy, or None"""
-    e = {"op": st["op"], "exc": exc, "db": enc_dict(db), "rdb": enc_dict(rdb), "slive": source is not None}
+    e = {"op": st["op"], "exc": exc, "db": enc_dict(db), "rdb": enc_dict(rdb), "slive": source is not None,
+         "keep": current is not None}
+    if current is not None:          # a kept derivation: db/rdb show the DERIVED object, cdb/crdb the current one
+        e["cdb"], e["crdb"] = enc_dict(current[0]), enc_dict(current[1])
     if source is not None:
         e["sdb"], e["srdb"] = enc_dict(source[0]), enc_dict(source[1])
     op = st["op"]
     if op == "read":
         e["lines"] = [{"pkgs": enc_set(p), "tags": enc_set(t)} for p, t in st["lines"]]
         e["drop"] = enc_set(st["drop"]) if st["usefilter"] else []
+    elif op == "qread":
+        e["lines"] = [{"pkgs": enc_set(p), "tags": enc_set(t)} for p, t in st["lines"]]
     elif op == "insert":
         e["a"] = enc(st["a"])
         e["s"] = enc_set(st["s"])
@@ -268,7 +342,7 @@ def event_of(st, exc, db, rdb, answers=None, source=None):
         e["k"] = st["k"]
     elif op == "probe":
         pass
-    elif op == "q":
+    elif op in ("q", "qs"):
         a = answers
         if a is None:
             a = dict(pc=0, tc=0, qn=[], qtags=[], qpkgs=[], qcard=[], qhasp=[], qhast=[], itp=[], itt=[], itpt=[], ittp=[])
@@ -291,8 +365,17 @@ def execute(plan):
     srcobj = None          # the object the last copy()/reverse_copy()/pickle was taken from
     events = []
     for st in plan:
+        current = None
+        shown = None
         if st["op"] == "q":
-            answers, exc = ask(cur, st["names"])
+            answers, exc = ask(cur, st["names"], st.get("alias", False))
+        elif st["op"] == "qs":                 # the query methods of the retained source of the last copy
+            if srcobj is None:
+                continue
+            answers, exc = ask(srcobj, st["names"], st.get("alias", False))
+        elif st.get("keep"):                   # a derivation that is observed but does not become current
+            answers = None
+            shown, exc = do_call(cur, st)
         else:
             answers = None
             before = cur
@@ -302,6 +385,11 @@ def execute(plan):
         db, rdb, bad = proj(cur)
         if bad:
             return events, "after %s: %s" % (describe(st), bad)
+        if shown is not None:
+            current = (db, rdb)
+            db, rdb, bad = proj(shown)
+            if bad:
+                return events, "after %s: derived object: %s" % (describe(st), bad)
         source = None
         if srcobj is not None:
             sdb, srdb, bad = proj(srcobj)
@@ -309,7 +397,7 @@ def execute(plan):
                 return events, "after %s: source of the last copy: %s" % (describe(st), bad)
             source = (sdb, srdb)
         try:
-            events.append(event_of(st, exc, db, rdb, answers, source))
+            events.append(event_of(st, exc, db, rdb, answers, source, current))
         except Exception as e:
             return events, "after %s: answers not encodable (%s: %s)" % (describe(st), type(e).__name__, e)
     return events, None
@@ -321,6 +409,10 @@ def describe(st):
         return "read(%r%s)" % ("".join(st["text"]), ", tag_filter=not in %r" % (sorted(st["drop"]),) if st["usefilter"] else "")
     if op == "insert":
         return "insert(%r, %r)" % (st["a"], sorted(st["s"]))
+    if op == "qread":
+        return "qread(pickle of %r)" % "".join(st["text"])
+    if op == "qs":
+        return "queries of the copied source"
     if op == "read_fail":
         return "read(%r) FAILING %s" % ("".join(st["text"]), "in the input after %d lines" % st["m"] if st["mode"] == "source"
                                         else "in tag_filter at its call %d" % st["fcall"])
@@ -330,9 +422,19 @@ def describe(st):
         return "probe %s" % st["what"]
     if op == "q":
         return "queries"
+    name = (ALIAS.get({"facet": "facet_collection", "choose": "choose_packages", "choose_copy": "choose_packages_copy",
+                       "filter_p": "filter_packages", "filter_p_copy": "filter_packages_copy",
+                       "filter_pt": "filter_packages_tags", "filter_pt_copy": "filter_packages_tags_copy",
+                       "filter_t": "filter_tags", "filter_t_copy": "filter_tags_copy"}.get(op, op), op)
+            if st.get("alias") else op) + (" [kept aside]" if st.get("keep") else "")
     if "s" in st:
-        return "%s(%r)" % (op, sorted(st["s"]))
-    return "%s()" % op
+        return "%s(%s)" % (name, short(sorted(st["s"])))
+    return "%s()" % name
+
+
+def short(x, limit=300):
+    r = repr(x)
+    return r if len(r) <= limit else r[:limit] + "...(%d chars)" % len(r)
 
 
 # ------------------------------------------------------------------ spec -> code: replaying LTS paths
@@ -369,6 +471,8 @@ def concretize_step(e, conc, rng, junk):
         lines = [(conc.names(ln["pkgs"]), conc.names(ln["tags"])) for ln in e["lines"]]
         drop = conc.names(e["s"])
         text, glines = read_text(rng, lines)
+        if not drop and rng.random() < 0.3:             # the same collection through qwrite/qread
+            return {"op": "qread", "text": text, "lines": glines}
         return {"op": "read", "text": text, "lines": glines, "drop": sorted(drop),
                 "usefilter": bool(drop) or rng.random() < 0.5}
     if op == "insert":
@@ -384,25 +488,26 @@ def concretize_step(e, conc, rng, junk):
         if k < len(glines) and glines[k][1] and rng.random() < 0.5:
             st.update(mode="filter", fcall=1 + sum(len(t) for _, t in glines[:k]), want="ValueError")
         return st
+    al = rng.random() < 0.5                             # through the deprecated camelCase alias
     if op == "reverse":
-        return {"op": rng.choice(["reverse", "reverse_copy"])}
+        return {"op": rng.choice(["reverse", "reverse_copy"]), "alias": al}
     if op == "copy":
         return {"op": rng.choice(["copy", "copy", "pickle"])}
     if op == "facet":
-        return {"op": "facet"}
+        return {"op": "facet", "alias": al}
     S = sorted(conc.names(e["s"]))
     if op == "filter_t":
         extra = [j for j in junk if rng.random() < 0.3]
-        return {"op": rng.choice(["filter_t", "filter_t_copy"]), "s": sorted(set(S + extra))}
+        return {"op": rng.choice(["filter_t", "filter_t_copy"]), "s": sorted(set(S + extra)), "alias": al}
     if op == "restrict_p":
         present = conc.names(e["from"]["P"])
         absent = [j for j in junk if j not in present and rng.random() < 0.3]
         v = rng.choice(["choose", "choose", "choose_copy", "filter_p", "filter_p_copy", "filter_pt", "filter_pt_copy"])
         if v == "choose_copy":
-            return {"op": v, "s": S}
+            return {"op": v, "s": S, "alias": al}
         s = S + absent
         rng.shuffle(s)
-        return {"op": v, "s": s if v == "choose" else sorted(set(s))}
+        return {"op": v, "s": s if v == "choose" else sorted(set(s)), "alias": al}
     raise core.MachineryError("unknown edge op %r" % (op,))
 
 
@@ -429,10 +534,16 @@ def compare_state(cur, s, conc, who=""):
     return None
 
 
-def compare_queries(cur, table, conc, rng, junk):
+def compare_queries(cur, table, conc, rng, junk, who=""):
     """verdict observables 2: the query methods answer like the reference (STATE table from TLC)"""
     names = [conc.name(n) for n in table["names"]]
-    a, exc = ask(cur, names + junk)
+    alias = rng.random() < 0.5
+    m = _compare_queries(cur, table, conc, junk, names, alias)
+    return None if m is None else "%s%s%s" % (who, "(through the deprecated aliases) " if alias else "", m)
+
+
+def _compare_queries(cur, table, conc, junk, names, alias):
+    a, exc = ask(cur, names + junk, alias)
     if exc:
         return "query methods raised %s" % exc
     if a["pc"] != table["pc"] or a["tc"] != table["tc"]:
@@ -468,37 +579,73 @@ def compare_queries(cur, table, conc, rng, junk):
     return None
 
 
-def replay_path(plan, tos, tables, conc, rng, junk, deep, froms=None, alloweds=None):
-    """step the real object through `plan`, comparing with the model states `tos` (and the query
-    tables) after each call; the source of the last copy must stay the model state `froms[i]` it
-    was copied in.  returns None or (step index, message) of the first divergence"""
+SHARING_OPS = ("reverse", "choose", "choose_copy", "filter_p", "filter_pt", "filter_t")   # documented / coded as sharing
+
+
+def replay_path(plan, exp, conc, rng, junk, deep):
+    """step the real object through `plan`, comparing after each call with what TLC expects:
+    exp[i] = {"to": state, "table": query table of it, "from": state, "ftable": its table[, "allowed"]}.
+    * a step with keep=True is a derivation that is observed (== to) while the object it was taken
+      from stays current (== from, unchanged);
+    * the source of the last copy must stay the state it was copied in, its query methods too;
+    * kept copies must still be what they were at the end; kept sharing derivations are not looked at again.
+    returns None or (step index, message) of the first divergence"""
     from debian import debtags
     cur = debtags.DB()
-    srcobj, srcstate, srcstep = None, None, 0
+    srcobj, srcexp, srcstep = None, None, 0
+    parked = []
     n = len(plan)
     for i, st in enumerate(plan):
+        x = exp[i]
+        where = "step %d %s: " % (i + 1, describe(st))
+        if st.get("keep"):
+            derived, exc = do_call(cur, st)
+            if exc:
+                return i, where + "raised %s" % exc
+            m = compare_state(derived, x["to"], conc, "the derived collection: ")
+            if m is None:
+                m = compare_queries(derived, x["table"], conc, rng, junk, "the derived collection: ")
+            if m is None:
+                m = compare_state(cur, x["from"], conc, "the collection it was derived from changed: ")
+            if m:
+                return i, where + m
+            if st["op"] not in SHARING_OPS:
+                parked.append((derived, x, i + 1))
+            continue
         before = cur
         cur, exc = do_call(cur, st)
         if st["op"] in ("read_fail", "qread_fail"):
             if (exc != st["want"]) if st["op"] == "read_fail" else (not exc):
-                return i, "step %d %s: expected the injected exception to propagate, got %r" % (i + 1, describe(st), exc or "no exception")
-            m = compare_state(cur, tos[i], conc)
-            if m is not None and alloweds is not None:
-                if any(compare_state(cur, a, conc) is None for a in alloweds[i]):
+                return i, where + "expected the injected exception to propagate, got %r" % (exc or "no exception")
+            m = compare_state(cur, x["to"], conc)
+            if m is not None and x.get("allowed") is not None:
+                if any(compare_state(cur, a, conc) is None for a in x["allowed"]):
                     return None          # another consistent outcome the statement allows: the path ends here
-                return i, "step %d %s: the object is none of the consistent collections allowed after the failure: %s" % (i + 1, describe(st), m)
+                return i, where + "the object is none of the consistent collections allowed after the failure: " + m
         elif exc:
-            return i, "step %d %s raised %s" % (i + 1, describe(st), exc)
-        if st["op"] in COPY_OPS and froms is not None:
-            srcobj, srcstate, srcstep = before, froms[i], i + 1
-        m = compare_state(cur, tos[i], conc)
+            return i, where + "raised %s" % exc
+        if st["op"] in COPY_OPS:
+            srcobj, srcexp, srcstep = before, x, i + 1
+        m = compare_state(cur, x["to"], conc)
         if m is None and srcobj is not None:
-            m = compare_state(srcobj, srcstate, conc, "the SOURCE of the %s of step %d changed: " % (plan[srcstep - 1]["op"], srcstep))
+            who = "the SOURCE of the %s of step %d changed: " % (plan[srcstep - 1]["op"], srcstep)
+            m = compare_state(srcobj, srcexp["from"], conc, who)
+            if m is None and (deep or i == n - 1):
+                m = compare_queries(srcobj, srcexp["ftable"], conc, rng, junk, who)
         if m is None and (deep or i == n - 1):
-            m = compare_queries(cur, tables[i], conc, rng, junk)
+            m = compare_queries(cur, x["table"], conc, rng, junk)
         if m:
-            return i, "step %d %s: %s" % (i + 1, describe(st), m)
+            return i, where + m
+    for derived, x, step in parked:
+        m = compare_state(derived, x["to"], conc, "the copy taken in step %d changed afterwards: " % step)
+        if m:
+            return n - 1, m
     return None
+
+
+def expectations(path, tables):
+    return [dict({"to": e["to"], "table": tables[e["_t"]], "from": e["from"], "ftable": tables[e["_f"]]},
+                 **({"allowed": e["allowed"]} if "allowed" in e else {})) for e in path]
 
 
 def with_queries(plan, names, every=True):
@@ -508,7 +655,8 @@ def with_queries(plan, names, every=True):
     for i, st in enumerate(plan):
         out.append(st)
         if every or i == len(plan) - 1:
-            out.append({"op": "q", "names": list(names)})
+            out.append({"op": "q", "names": list(names), "alias": i % 2 == 0})
+            out.append({"op": "qs", "names": list(names), "alias": i % 2 == 1})      # skipped while nothing was copied
     return out
 
 
@@ -605,15 +753,30 @@ def record_history(rng, nops, maxpk):
     """random history on the real class over alphabets far beyond the model constants.
     returns a plan; it is built while executing because arguments depend on the current keys"""
     from debian import debtags
-    alpha = ALPHA + (EXOTIC if rng.random() < 0.2 else "")
+    u = rng.random()
+    stress = u < 0.25                 # character stress (SIZE_STRESS part 2): twins, case hazards, non-BMP ...
+    alpha = ALPHA + (EXOTIC if u > 0.8 else "") + (STRESS_POOL * 3 if stress else "")
     npk = rng.randint(2, maxpk)
+
+    def length():                     # heavy-tailed; TLC scans these names, so they stay below ~70 code points
+        v = rng.random()
+        return rng.randint(2, 9) if v < 0.85 else rng.choice((15, 16, 17, 31, 32, 33, 63, 64, 65))
+
     pk_pool = set()
-    while len(pk_pool) < npk + 12:
-        pk_pool.add(rname(rng, 1, 1, alpha) if rng.random() < 0.25 else rname(rng, 2, 9, alpha))
+    if stress:                        # not NFC / NFKC / case stable, as DIFFERENT packages
+        pk_pool |= {"\u00e9", "e\u0301", "\u00e9x", "e\u0301x", "\u212bb", "\u00c5b", "A\u030ab", "Kk", "kk", "\u212ak", "KK",
+                    "\ufb01n", "fin", "\uff21a", "Aa", "stra\u00dfe", "strasse", "STRASSE", "\u0130x", "ix", "i\u0307x",
+                    "\ufeffab", "ab", "a\u200db", "a\u00adb", "\u0301a", "\U0001F600", "\U0001F600\U0001F600", "\U0010FFFFz"}
+    while len(pk_pool) < npk + 12 + (29 if stress else 0):
+        n = length()
+        pk_pool.add(rname(rng, 1, 1, alpha) if rng.random() < 0.25 else rname(rng, n, n, alpha))
     pk_pool = sorted(pk_pool)
     rng.shuffle(pk_pool)
-    facets = sorted({rname(rng, 1, 6, ALPHA[:26] + "-") for _ in range(rng.randint(1, 4))})
-    tg_pool = sorted({"%s::%s" % (rng.choice(facets), rname(rng, 1, 5, ALPHA[:36] + "-+")) for _ in range(rng.randint(2, 12))})
+    falpha = ALPHA[:26] + "-" + (STRESS_POOL if stress else "")
+    talpha = ALPHA[:36] + "-+" + (STRESS_POOL if stress else "")
+    facets = sorted({rname(rng, 1, 6, falpha) for _ in range(rng.randint(1, 4))})
+    tg_pool = sorted({"%s::%s" % (rng.choice(facets), rname(rng, 1, 5 if rng.random() < 0.9 else 33, talpha))
+                      for _ in range(rng.randint(2, 12))})
     fresh = iter(pk_pool)
     cur = debtags.DB()
     plan = []
@@ -624,7 +787,11 @@ def record_history(rng, nops, maxpk):
     def step(st):
         nonlocal cur
         plan.append(st)
-        if st["op"] != "q":
+        if st["op"] in ("q", "qs"):
+            return
+        if st.get("keep"):
+            do_call(cur, st)               # observed by execute(); the current object stays
+        else:
             cur, _ = do_call(cur, st)
 
     def vals_pool():
@@ -668,7 +835,9 @@ def record_history(rng, nops, maxpk):
         step({"op": "read", "text": text, "lines": glines, "drop": sorted(drop), "usefilter": bool(drop) or rng.random() < 0.3})
     ops = (["insert"] * 8 + ["reverse", "reverse_copy", "copy", "pickle", "choose", "choose_copy", "filter_p",
            "filter_p_copy", "filter_pt", "filter_pt_copy", "filter_t", "filter_t_copy", "facet", "q", "q", "q",
-           "read_fail", "read_fail", "qread_fail", "probe"])
+           "read_fail", "read_fail", "qread_fail", "probe", "reread", "reread", "qs"])
+    KEEPABLE = ("reverse", "reverse_copy", "copy", "choose", "choose_copy", "filter_p", "filter_p_copy", "filter_pt",
+                "filter_pt_copy", "filter_t", "filter_t_copy", "facet")
 
     def some_lines():
         """1-4 record lines over distinct packages (they may or may not be in the collection already)"""
@@ -690,6 +859,8 @@ def record_history(rng, nops, maxpk):
         op = rng.choice(ops)
         keys = sorted(cur.db) if isinstance(cur.db, dict) else []
         rkeys = sorted(cur.rdb) if isinstance(cur.rdb, dict) else []
+        al = rng.random() < 0.5                            # through the deprecated camelCase alias
+        keep = op in KEEPABLE and rng.random() < 0.3       # observe the derivation, keep working on the object
         if op == "insert":
             unspec = rng.random() < 0.02 and keys
             p = rng.choice(keys) if unspec else keys_like()
@@ -704,17 +875,34 @@ def record_history(rng, nops, maxpk):
                 tags |= set(rng.sample(rkeys, min(len(rkeys), rng.randint(1, 2))))
             step({"op": "insert", "a": p, "s": sorted(tags)})
         elif op in ("reverse", "reverse_copy"):
-            step({"op": op})
-            flipped = not flipped
+            if keep:
+                step({"op": op, "alias": al, "keep": True})
+            else:
+                step({"op": op, "alias": al})
+                flipped = not flipped
         elif op in ("copy", "pickle"):
-            step({"op": op})
+            step({"op": op, "keep": True} if keep and op == "copy" else {"op": op})
+        elif op == "reread":
+            # the SAME object gets new content (read / qread) after derivations were taken from it
+            glines, text, _ = some_lines()
+            if rng.random() < 0.5:
+                step({"op": "qread", "text": text, "lines": glines})
+            else:
+                drop = rng.sample(tg_pool, min(len(tg_pool), 1)) if rng.random() < 0.3 else []
+                step({"op": "read", "text": text, "lines": glines, "drop": sorted(drop), "usefilter": bool(drop) or rng.random() < 0.3})
+            flipped = faceted = False
+        elif op == "qs":
+            step({"op": "qs", "names": rng.sample(keys, min(len(keys), 3)) + rng.sample(rkeys, min(len(rkeys), 3)), "alias": al})
         elif op == "facet":
             if flipped or faceted:
                 if rng.random() < 0.9:
                     continue                               # unspecified: executed only now and then
                 clean[0] = False
-            step({"op": op})
-            faceted = True
+            if keep:
+                step({"op": op, "alias": al, "keep": True})
+            else:
+                step({"op": op, "alias": al})
+                faceted = True
         elif op == "read_fail":
             glines, text, isrec = some_lines()
             ncalls = sum(len(t) for _, t in glines)
@@ -738,26 +926,29 @@ def record_history(rng, nops, maxpk):
             step({"op": "probe", "what": what, "a": rname(rng, 2, 5, alpha)})
         elif op == "q":
             probe = rng.sample(keys, min(len(keys), 4)) + rng.sample(rkeys, min(len(rkeys), 4)) + [rname(rng, 1, 4, alpha)]
-            step({"op": "q", "names": probe})
+            step({"op": "q", "names": probe, "alias": al})
         elif op in ("filter_t", "filter_t_copy"):
-            keep = [t for t in rkeys if rng.random() < 0.7] + [rname(rng, 2, 4, alpha)]
-            step({"op": op, "s": sorted(set(keep))})
+            sel = [t for t in rkeys if rng.random() < 0.7] + [rname(rng, 2, 4, alpha)]
+            step(dict({"op": op, "s": sorted(set(sel)), "alias": al}, **({"keep": True} if keep else {})))
+            if not keep:
+                pass
         else:
-            keep = [p for p in keys if rng.random() < 0.75]
+            sel = [p for p in keys if rng.random() < 0.75]
             if op != "choose_copy":
-                keep.append(rname(rng, 2, 4, alpha))       # absent name
+                sel.append(rname(rng, 2, 4, alpha))        # absent name
             elif rng.random() < 0.03:
-                keep.append(rname(rng, 2, 4, alpha))       # choose_copy of an absent name: unspecified
+                sel.append(rname(rng, 2, 4, alpha))        # choose_copy of an absent name: unspecified
                 clean[0] = False
             if op == "choose":
-                rng.shuffle(keep)
+                rng.shuffle(sel)
             else:
-                keep = sorted(set(keep))
-            step({"op": op, "s": keep})
+                sel = sorted(set(sel))
+            step(dict({"op": op, "s": sel, "alias": al}, **({"keep": True} if keep else {})))
         if rng.random() < 0.25:
             keys = sorted(cur.db) if isinstance(cur.db, dict) else []
             rkeys = sorted(cur.rdb) if isinstance(cur.rdb, dict) else []
-            step({"op": "q", "names": rng.sample(keys, min(len(keys), 3)) + rng.sample(rkeys, min(len(rkeys), 3))})
+            step({"op": "q", "names": rng.sample(keys, min(len(keys), 3)) + rng.sample(rkeys, min(len(rkeys), 3)),
+                  "alias": rng.random() < 0.5})
     return plan, clean[0]
 
 
@@ -808,6 +999,7 @@ def strip_edge(e):
 
 def run(ctx):
     quick = ctx.tier == "quick"
+    quiet_deprecations()
     rng = ctx.rng
     known_open = ctx.known_open(KNOWN)
     ctx.assumptions += [
@@ -822,7 +1014,7 @@ def run(ctx):
     # 1. design level.  The closed configurations and the two negative controls do not depend on
     #    each other or on /repo: they run beside the LTS emission and the replay (joined in 2c).
     from concurrent.futures import ThreadPoolExecutor
-    pool = ThreadPoolExecutor(5)
+    pool = ThreadPoolExecutor(6)
 
     def bg(cfg, workers):
         return pool.submit(ctx.tlc, "Debtags", cfg, count=False, workers=workers)
@@ -832,6 +1024,8 @@ def run(ctx):
     f_dev = bg("MC_Debtags_dev.cfg", 1)         # negative control: named deviation ON -> Inverse violated
     f_na = bg("MC_Debtags_nonatomic.cfg", 1)    # negative control: read() binds db first -> Inverse violated
     f_nq = bg("MC_Debtags_qread.cfg", 1)        # negative control: qread() binds db first -> Inverse violated
+    f_rv = bg("MC_Debtags_rview.cfg", 1)        # negative control: remembered reverse view survives read() -> Refines violated
+    f_ab = bg("MC_Debtags_alias.cfg", 1)        # negative control: alias bound to the first object -> AliasQueriesAgree violated
     if quick:
         f_closed = bg("MC_Debtags.cfg", 4)                                         # 3 packages x 3 tags
         f_big = None
@@ -846,7 +1040,8 @@ def run(ctx):
         out = {}
         for name, f, want in (("closed", f_closed, None), ("big", f_big, None), ("src", f_src, None),
                               ("shallow", f_sh, ("SourceInverse", "SourceRefines")), ("dev", f_dev, ("Inverse",)),
-                              ("nonatomic", f_na, ("Inverse",)), ("qread", f_nq, ("Inverse",))):
+                              ("nonatomic", f_na, ("Inverse",)), ("qread", f_nq, ("Inverse",)),
+                              ("rview", f_rv, ("Refines",)), ("alias", f_ab, ("AliasQueriesAgree",))):
             if f is None:
                 continue
             r = f.result()
@@ -876,22 +1071,28 @@ def run(ctx):
     nviol = [0]
     called = {}            # concrete method of the last call of each replayed behaviour
 
-    def one(path, conc, deep, label):
-        """replay one behaviour; a divergence is not judged here but handed to TLC"""
+    def one(path, conc, deep, label, keeps=()):
+        """replay one behaviour; a divergence is not judged here but handed to TLC.
+        keeps: indexes of derivation steps that are observed but do not become the current object"""
         nonlocal n_replayed
         junk = list(JUNK)
+        if conc.rep and any(e["op"] in ("insert", "facet") for e in path):
+            conc = concs[1]        # stretched names only where the known insert deviation cannot occur
         plan = [concretize_step(e, conc, rng, junk) for e in path]
+        for i in keeps:
+            plan[i]["keep"] = True
+            if plan[i]["op"] == "pickle":
+                plan[i]["op"] = "copy"
         called[plan[-1]["op"]] = called.get(plan[-1]["op"], 0) + 1
-        tos = [e["to"] for e in path]
-        tabs = [tables[e["_t"]] for e in path]
+        exp = expectations(path, tables)
         n_replayed += 1
-        d = replay_path(plan, tos, tabs, conc, rng, junk, deep, [e["from"] for e in path], [e.get("allowed") for e in path])
+        d = replay_path(plan, exp, conc, rng, junk, deep)
         if d is None:
             return
         names = [conc.name(n) for n in model_names]
         names += sorted({c for n in names for c in n} - set(names)) + junk      # also the characters
         events, problem = execute(with_queries(plan, names, every=deep))
-        case = {"kind": "path", "label": label, "path": [strip_edge(e) for e in path], "tables": tabs,
+        case = {"kind": "path", "label": label, "path": [strip_edge(e) for e in path], "exp": exp,
                 "conc": conc.to_json(), "plan": plan}
         if problem:
             nviol[0] += 1
@@ -901,16 +1102,26 @@ def run(ctx):
 
     copy_edge = {k: [x for x in outs if x["op"] == "copy"][0] for k, outs in g.out.items()}
     fail_edges = {k: [x for x in outs if x["op"] in ("read_fails", "qread_fails")] for k, outs in g.out.items()}
+    read_edges = {k: [x for x in outs if x["op"] == "read"] for k, outs in g.out.items()}
+    by_op = {k: {} for k in g.out}
+    for k, outs in g.out.items():
+        for x in outs:
+            by_op[k].setdefault(x["op"], []).append(x)
+    DERIVE = ("reverse", "copy", "restrict_p", "filter_t", "facet")
     # 2a. every transition of the LTS (prefix = shortest path from DB())
     nconc = 2
-    concs = [Conc(canonical=True)] + [Conc(rng) for _ in range(24)]
+    concs = ([Conc(canonical=True)] + [Conc(rng) for _ in range(17)]
+             + [Conc(flavour="nfc"), Conc(flavour="marks"), Conc(flavour="case")]
+             + [Conc(rng, flavour="size") for _ in range(3)])
+    nc = len(concs) - 1
+    n_reread = 0
     for idx, e in enumerate(g.edges):
         if nviol[0] >= 5:
             break
         # thorough: the 33 000 restrict/filter transitions of the 3x3 LTS get one of the two forms each
         reps = range(nconc) if quick or e["op"] not in ("restrict_p", "filter_t", "read_fails", "qread_fails") else (idx % 2,)
         for c in reps:
-            conc = concs[0] if c == 0 else concs[1 + (idx % 24)]
+            conc = concs[0] if c == 0 else concs[1 + (idx % nc)]
             path = paths[e["_f"]] + [e]
             if c == 1 and e["op"] != "copy" and idx % 2 == 0:
                 # the same transition taken on a COPY of the collection: its source must not notice
@@ -920,7 +1131,18 @@ def run(ctx):
                 fe = fail_edges[e["_f"]]
                 path = paths[e["_f"]] + [fe[(idx // 2) % len(fe)], e]
             one(path, conc, False, "edge")
+        # re-read: the derivation is taken and kept aside, the SAME object is re-read (read / qread), the
+        # derivation is taken again from the new content; the kept one is checked as documented
+        if e["op"] in DERIVE and (e["op"] == "reverse" or idx % 3 == 0):
+            rs = read_edges[e["_f"]]
+            r = rs[idx % len(rs)]
+            again = by_op[r["_t"]].get(e["op"])
+            if again:
+                pre = paths[e["_f"]]
+                one(pre + [e, r, again[idx % len(again)]], concs[1 + ((idx + 7) % nc)], False, "reread", keeps=(len(pre),))
+                n_reread += 1
         ctx.case_seen(("edge", e["_f"], e["op"], json.dumps(e["args"])), e["_f"] != e["_t"])
+    ctx.extra["reread_behaviours"] = n_reread
     mid = g.edges[len(g.edges) // 3]
     ctx.sample("lts edge: " + json.dumps(strip_edge(mid), separators=(",", ":")))
     ctx.sample("its concretization: " + " ; ".join(
@@ -951,7 +1173,9 @@ def run(ctx):
     ctx.extra["negative_control_spec"] = ["InsertNewTagStoresChars=TRUE -> TLC: invariant %s violated" % design["dev"].violated,
                                           "ShallowCopy=TRUE -> TLC: invariant %s violated" % design["shallow"].violated,
                                           "NonAtomicRead=TRUE -> TLC: invariant %s violated" % design["nonatomic"].violated,
-                                          "NonAtomicQread=TRUE -> TLC: invariant %s violated" % design["qread"].violated]
+                                          "NonAtomicQread=TRUE -> TLC: invariant %s violated" % design["qread"].violated,
+                                          "ReverseViewCached=TRUE -> TLC: invariant %s violated" % design["rview"].violated,
+                                          "AliasBoundToFirstObject=TRUE -> TLC: invariant %s violated" % design["alias"].violated]
     hits = 0
     if diverged:
         traces = [t for _, _, t in diverged]
@@ -1045,16 +1269,16 @@ def brief(ev):
 
 def replay(ctx, case):
     import random
+    quiet_deprecations()
     known_open = ctx.known_open(KNOWN)
     plan = case["plan"]
     if case["kind"] == "path":
-        conc = Conc(cmap=case["conc"])
+        conc = Conc.from_json(case["conc"])
         junk = list(JUNK)
-        d = replay_path(plan, [e["to"] for e in case["path"]], case["tables"], conc, random.Random(0), junk, True,
-                        [e["from"] for e in case["path"]], [e.get("allowed") for e in case["path"]])
+        d = replay_path(plan, case["exp"], conc, random.Random(0), junk, True)
         if d is None:
             return None
-        names = sorted({conc.name(n) for t in case["tables"] for n in t["names"]})
+        names = sorted({conc.name(n) for x in case["exp"] for n in x["table"]["names"]})
         names += sorted({c for n in names for c in n} - set(names)) + junk
         events, problem = execute(with_queries(plan, names))
         if problem:
